@@ -378,7 +378,8 @@ def run(prop, argv=None) -> int:
             "traces_validated_against_impl": len(cases) - len(disagreements),
             "disagreements": len(disagreements), "oracle_failures": len(spec_fail),
             "corpus_cases": len(corpus), "samples": samples, "input_distribution": stats,
-            "exhaustive": bool(getattr(prop, "EXHAUSTIVE", {}).get(a.tier, False)),
+            "exhaustive": bool(getattr(prop, "EXHAUSTIVE", {}).get(a.tier, False)) and bool(getattr(prop, "exhaustive_ok", lambda: True)()),
+            "enumeration": getattr(prop, "enumeration_report", lambda: None)(),
             "timing_s": {"implementation": round(t_impl, 2), "coq_vm_compute": round(t_coq, 2), "obligations": ob.get("wall_s")},
         },
         "assumptions": prop.ASSUMPTIONS, "wall_s": round(wall, 2), "violations": len(violations),
